@@ -138,6 +138,7 @@ struct Runtime {
     long rr_limit = 0;
     int rr_next = 0;
     long fault_counter = 0;
+    bool faults_off = false;           // set by a harness before its final observation phase
     std::vector<FreedBlock> freed;
     std::vector<MutexCore*> mutexes;   // modelled mutexes constructed during the case, in construction order
     // pct
@@ -505,10 +506,12 @@ inline void yield_now() {
 enum FaultKind : unsigned { F_FUNCTOR = 1, F_COPY = 2, F_ASSIGN = 4, F_COMPARE = 8, F_CALLBACK = 16, F_PRED = 32, F_DTOR = 64 };
 inline void fault_point(unsigned kind) {
     Runtime& R = rt();
-    if (!R.active || !R.spec->fault_k) return;
+    if (!R.active || !R.spec->fault_k || R.faults_off) return;
     if (!(kind & R.spec->fault_mask)) return;
     if (++R.fault_counter == R.spec->fault_k) { R.res.faults_fired++; throw InjectedFault{(int)R.fault_counter}; }
 }
+
+inline void disable_faults() { rt().faults_off = true; }
 
 // Run one case: `body` executes as fiber 0.
 inline Result run(const SchedSpec& spec, std::function<void()> body) {
@@ -520,7 +523,7 @@ inline Result run(const SchedSpec& spec, std::function<void()> body) {
     R.res = Result();
     R.abandoned = false;
     R.rr_mode = false; R.rr_next = 0;
-    R.fault_counter = 0;
+    R.fault_counter = 0; R.faults_off = false;
     R.freed.clear();
     R.mutexes.clear();
     R.pct_change.clear(); R.pct_low = 0;
